@@ -48,7 +48,7 @@ class C16(core.Check):
     chunk = 1200
     required_buckets = {b: 3 for b in ['line>6-bytes', 'line>16-bytes', 'gap-without-org', 'muted-region', 'zero-length-line',
                                        'included-file', 'predefined-data', 'width:4', 'width:8', 'width:12', 'width:16',
-                                       'width:24', 'width:32', 'width:20', 'bytes-above-64KiB', 'statement-across-a-64KiB-boundary', 'every-line-length-1..40', 'fmt:listing', 'fmt:hex', 'fmt:intel_hex', 'fmt:minhex',
+                                       'width:24', 'width:32', 'width:20', 'bytes-above-64KiB', 'statement-across-a-64KiB-boundary', 'bytes-below-a-configured-origin', 'every-line-length-1..40', 'fmt:listing', 'fmt:hex', 'fmt:intel_hex', 'fmt:minhex',
                                        'image-fill:nonzero', 'width:not-a-multiple-of-4', 'zero-length-at-gap-edge', 'gap:align', 'gap:memzone', 'gap:muted', 'gap:zone-org',
                                        'statement-longer-than-96-bytes', 'long-statement:fill', 'long-statement:cstr',
                                        'stale-longer-output-present', 'image-window-starts-inside-a-statement',
@@ -188,6 +188,35 @@ class C16(core.Check):
                     crossing = any(l['addr'] >> 16 != (l['addr'] + len(l['bytes']) // 2 - 1) >> 16 for l in res.byte_lines if l['bytes'])
                     yield self.make_case(isa, {'p.asm': ''.join(l['text'] + '\n' for l in lines)}, 'p.asm', [], res, ids,
                                          {f'width:{ab}', 'bytes-above-64KiB', 'statement-across-a-64KiB-boundary' if crossing else 'statement-next-to-a-64KiB-boundary'})
+
+    def below_origin_cases(self):
+        """a configured origin above 0 with bytes placed below it through a zone switch or a predefined data block (no .org in
+        front of them): every format carries their addresses"""
+        D = lambda *v: {'k': 'data', 'width': 1, 'vals': list(v)}     # noqa: E731
+        for origin in (0x100, 0x06, 0x20):
+            for how in ('zone-first', 'zone-later', 'predefined-data', 'zone-and-data'):
+                zones = [{'name': 'ZLOW', 'start': origin // 2, 'end': origin // 2 + 7}] if how != 'predefined-data' else []
+                data = [{'name': 'pd_low', 'address': 0, 'value': 0x5A, 'size': 2}] if how in ('predefined-data', 'zone-and-data') else []
+                isa = gen_prog.layout_isa(16, origin=origin, zones=zones, data=data)
+                Z = lambda n: {'k': 'memzone', 'name': n}             # noqa: E731
+                if how == 'zone-first':
+                    lines = [Z('ZLOW'), D(0x11, 0x22, 0x33), Z('GLOBAL'), D(1, 2), Z('ZLOW'), D(0x44)]
+                elif how == 'predefined-data':
+                    lines = [D(1, 2, 3)]
+                else:
+                    lines = [D(1, 2), Z('ZLOW'), D(0x11, 0x22, 0x33), Z('GLOBAL'), D(3), Z('ZLOW'), D(0x44), Z('GLOBAL'), D(4)]
+                res = layout.layout(lines, 16, origin=origin, predefined_zones=zones, predefined_data=data,
+                                    size_of=lambda l, a: gen_prog.byte_line_size(isa, l))
+                if res.kind != 'ACCEPT' or layout.overlaps(res)[0] != 'ACCEPT':
+                    continue
+                zt = {'GLOBAL': (0, 65535)}
+                zt.update({z['name']: (z['start'], z['end']) for z in zones})
+                layout.memory_map(res, lambda l: gen_prog.byte_line_bytes(isa, l, None, zt))
+                for l in lines:
+                    l['text'] = gen_prog.render_line(l, None)
+                ids = {id(l): ('p.asm', k + 1) for k, l in enumerate(lines)}
+                yield self.make_case(isa, {'p.asm': ''.join(l['text'] + '\n' for l in lines)}, 'p.asm', [], res, ids,
+                                     {'width:16', 'bytes-below-a-configured-origin', 'below-origin:' + how}, origin=origin)
 
     def nested_mute_include_cases(self):
         """files included at mute depth 0..3 that mute, unmute and include further files themselves: the depth is one counter
@@ -333,6 +362,7 @@ class C16(core.Check):
         yield from self.length_cases()
         yield from self.long_statement_cases()
         yield from self.boundary_64k_cases()
+        yield from self.below_origin_cases()
         yield from self.nested_mute_include_cases()
         yield from self.compound_cases(tier, seed)
         yield from self.gap_cases()
